@@ -28,27 +28,36 @@ func runC01(r *fw.Run, p *fw.Program) {
 	c01Buffer(r, p)
 	c01EOFBits(r, p)
 	c05BitioxAs(r, p, "C01.bitiox")
+	c01Ctor(r, p)
+	c01Multi(r, p)
+	c01Fetch(r, p)
+	c01Bytes(r, p)
+	c01IOSeek(r, p)
+	c01BufState(r, p)
+	c01Count(r, p)
+	c01Copy(r, p)
+	c01Stitch(r, p)
+	c01Passthru(r, p)
 }
-
 
 // c01Params: canonical parameter names (receiver first) the rule texts below are written in;
 // actual names in /repo are aliased to these by position, so renames do not matter.
 var c01Params = map[string][]string{
-	"(*pkg/bitio.SectionReader).SeekBits":             {"r", "bitOff", "whence"},
-	"(*pkg/bitio.MultiReader).SeekBits":               {"m", "bitOff", "whence"},
-	"(*internal/bitiox.ZeroReadAtSeeker).SeekBits":    {"z", "bitOffset", "whence"},
-	"(*pkg/bitio.IOBitReadSeeker).SeekBits":           {"r", "bitOff", "whence"},
-	"(*pkg/bitio.IOReadSeeker).Seek":                  {"r", "offset", "whence"},
-	"(*pkg/bitio.SectionReader).ReadBitsAt":           {"r", "p", "nBits", "bitOff"},
-	"(*pkg/bitio.SectionReader).ReadBits":             {"r", "p", "nBits"},
-	"(*pkg/bitio.MultiReader).ReadBits":               {"m", "p", "nBits"},
-	"(*pkg/bitio.IOBitReadSeeker).ReadBits":           {"r", "p", "nBits"},
-	"(*pkg/bitio.LimitReader).ReadBits":               {"r", "p", "nBits"},
-	"(*internal/bitiox.ZeroReadAtSeeker).ReadBitsAt":  {"z", "p", "nBits", "bitOff"},
-	"(*pkg/bitio.MultiReader).ReadBitsAt":             {"m", "p", "nBits", "bitOff"},
-	"(*pkg/bitio.IOBitReadSeeker).ReadBitsAt":         {"r", "p", "nBits", "bitOffset"},
-	"(*internal/aheadreadseeker.Reader).Seek":         {"r", "offset", "whence"},
-	"(*internal/aheadreadseeker.Reader).Read":         {"r", "p"},
+	"(*pkg/bitio.SectionReader).SeekBits":            {"r", "bitOff", "whence"},
+	"(*pkg/bitio.MultiReader).SeekBits":              {"m", "bitOff", "whence"},
+	"(*internal/bitiox.ZeroReadAtSeeker).SeekBits":   {"z", "bitOffset", "whence"},
+	"(*pkg/bitio.IOBitReadSeeker).SeekBits":          {"r", "bitOff", "whence"},
+	"(*pkg/bitio.IOReadSeeker).Seek":                 {"r", "offset", "whence"},
+	"(*pkg/bitio.SectionReader).ReadBitsAt":          {"r", "p", "nBits", "bitOff"},
+	"(*pkg/bitio.SectionReader).ReadBits":            {"r", "p", "nBits"},
+	"(*pkg/bitio.MultiReader).ReadBits":              {"m", "p", "nBits"},
+	"(*pkg/bitio.IOBitReadSeeker).ReadBits":          {"r", "p", "nBits"},
+	"(*pkg/bitio.LimitReader).ReadBits":              {"r", "p", "nBits"},
+	"(*internal/bitiox.ZeroReadAtSeeker).ReadBitsAt": {"z", "p", "nBits", "bitOff"},
+	"(*pkg/bitio.MultiReader).ReadBitsAt":            {"m", "p", "nBits", "bitOff"},
+	"(*pkg/bitio.IOBitReadSeeker).ReadBitsAt":        {"r", "p", "nBits", "bitOffset"},
+	"(*internal/aheadreadseeker.Reader).Seek":        {"r", "offset", "whence"},
+	"(*internal/aheadreadseeker.Reader).Read":        {"r", "p"},
 }
 
 // c01Fn resolves an anchored function and aliases its parameters to the canonical names.
@@ -230,7 +239,39 @@ func c01Seek(r *fw.Run, p *fw.Program) {
 		} else {
 			c := calls[0]
 			args := callArgs(c)
-			ru.Check(env.Of(args[0]).Equal(fw.ParsePoly("8*offset")) && env.Of(args[1]).Equal(fw.PAtom("whence")), "IOReadSeeker.Seek:delegate", p.Rel(c.Pos()),
+			// SeekStart / SeekEnd (every path other than whence == SeekCurrent) are forwarded as SeekBits(offset*8, whence);
+			// how SeekCurrent is resolved is decided by C01.ioseek Seek:current
+			okDel := true
+			wantOff := fw.PAtom("offset") // in the unit of the value the arms are taken from
+			if c01StripMul8(args[0]) == args[0] {
+				wantOff = fw.ParsePoly("8*offset")
+			}
+			oArms, oOther := phiArmsByConst(env, c01StripMul8(args[0]), "whence")
+			for k, o := range oArms {
+				if k != 1 && !o.Equal(wantOff) {
+					okDel = false
+				}
+			}
+			for _, o := range oOther {
+				if !o.Equal(wantOff) {
+					okDel = false
+				}
+			}
+			if _, isPhi := c01StripMul8(args[0]).(*ssa.Phi); !isPhi && !env.Of(args[0]).Equal(fw.ParsePoly("8*offset")) {
+				okDel = false
+			}
+			wArms, wOther := phiArmsByConst(env, args[1], "whence")
+			for k, w := range wArms {
+				if c0, isC := w.IsConst(); k != 1 && !w.Equal(fw.PAtom("whence")) && !(isC && c0 == k) {
+					okDel = false
+				}
+			}
+			for _, w := range wOther {
+				if !w.Equal(fw.PAtom("whence")) {
+					okDel = false
+				}
+			}
+			ru.Check(okDel, "IOReadSeeker.Seek:delegate", p.Rel(c.Pos()),
 				"SeekBits(offset*8, whence)", "byte offset is not converted to bits by *8 or whence altered: SeekBits("+env.Of(args[0]).String()+", "+env.Of(args[1]).String()+")")
 			n := extractOrSelf(c, 0)
 			for _, ret := range returnsOf(fn) {
@@ -294,6 +335,28 @@ func isDiv8(v ssa.Value) bool {
 	return false
 }
 
+// c01StripMul8: x*8 / 8*x / x<<3 => x (else v itself).
+func c01StripMul8(v ssa.Value) ssa.Value {
+	b, ok := v.(*ssa.BinOp)
+	if !ok {
+		return v
+	}
+	if b.Op == token.MUL {
+		if c, ok := b.Y.(*ssa.Const); ok && c.Value != nil && c.Int64() == 8 {
+			return b.X
+		}
+		if c, ok := b.X.(*ssa.Const); ok && c.Value != nil && c.Int64() == 8 {
+			return b.Y
+		}
+	}
+	if b.Op == token.SHL {
+		if c, ok := b.Y.(*ssa.Const); ok && c.Value != nil && c.Int64() == 3 {
+			return b.X
+		}
+	}
+	return v
+}
+
 func stripDiv8(v ssa.Value) ssa.Value {
 	if isDiv8(v) {
 		return v.(*ssa.BinOp).X
@@ -325,6 +388,23 @@ func c01Clamp(r *fw.Run, p *fw.Program) {
 			n := env.Of(a[1])
 			window := fw.ParsePoly("r.bitLimit - bitOff - r.bitBase")
 			okN := n.Equal(window) || env.Proves(c.Block(), fw.Cmp{P: n.Sub(window), Rel: fw.LE})
+			if ph, isPhi := a[1].(*ssa.Phi); isPhi && !okN {
+				// clamp written as "if nBits > max { nBits = max }": every incoming value is the window or proved <= it on its edge
+				okN = true
+				for j, ed := range ph.Edges {
+					ep := env.Of(ed)
+					if !ep.Equal(window) && !fw.ProvesFrom(env.EdgeFacts(ph.Block().Preds[j], ph.Block()), fw.Cmp{P: ep.Sub(window), Rel: fw.LE}) {
+						okN = false
+					}
+				}
+			}
+			if mc, isCall := a[1].(*ssa.Call); isCall && !okN && fw.IsBuiltinCall(mc, "min") {
+				for _, x := range mc.Common().Args {
+					if env.Of(x).Equal(window) {
+						okN = true
+					}
+				}
+			}
 			ru.Check(okN, key+":count", p.Rel(c.Pos()), "count "+n.String()+" <= window", "bit count passed to the parent ("+n.String()+") is not bounded by the remaining window r.bitLimit - (bitOff + r.bitBase)")
 			okIn := provesAt(env, c.Block(), "bitOff", fw.GE) && provesAt(env, c.Block(), "bitOff - r.bitLimit + r.bitBase", fw.LT)
 			ru.Check(okIn, key+":inside", p.Rel(c.Pos()), "0 <= bitOff < window length", "delegates for offsets outside [0, bitLimit-bitBase): reads before the window start or at/after its end must return EOF")
@@ -388,6 +468,13 @@ func c01Clamp(r *fw.Run, p *fw.Program) {
 				pe := env.Of(a[1])
 				okCount = pe.Equal(fw.PAtom("r.n")) || (pe.Equal(fw.PAtom("nBits")) && provesAt(env, c.Block(), "nBits - r.n", fw.LE))
 				detail = pe.String()
+				if mc, isCall := a[1].(*ssa.Call); isCall && fw.IsBuiltinCall(mc, "min") {
+					for _, x := range mc.Common().Args {
+						if env.Of(x).Equal(fw.PAtom("r.n")) {
+							okCount = true
+						}
+					}
+				}
 			}
 			ru.Check(okCount, "LimitReader.ReadBits:count", p.Rel(c.Pos()), "count <= r.n on every path", "count passed to the wrapped reader ("+detail+") is not bounded by the remaining limit r.n")
 			ru.Check(provesAt(env, c.Block(), "r.n", fw.GT), "LimitReader.ReadBits:eof", p.Rel(c.Pos()), "read only while r.n > 0", "wrapped reader is read although the limit may be exhausted (r.n <= 0 must return EOF)")
@@ -422,34 +509,79 @@ func c01Clamp(r *fw.Run, p *fw.Program) {
 			ru.Check(okIn, "ZeroReadAtSeeker.ReadBitsAt:inside", p.Rel(okRet.Pos()), "0 <= bitOff < nBits on the success path", "success path reachable with an offset outside [0, nBits)")
 			// zero fill covers BitsByteCount(count) bytes: a store of 0 into p[i] under the loop bound i < BitsByteCount(count)
 			okFill := false
+			isCount := func(v ssa.Value) bool { // v = BitsByteCount(returned count)
+				bc, isCall := fw.StripConv(v).(*ssa.Call)
+				return isCall && bc.Common().StaticCallee() != nil && fw.ShortName(bc.Common().StaticCallee().String()) == "pkg/bitio.BitsByteCount" && env.Of(bc.Common().Args[0]).Equal(got)
+			}
+			// lessThanCount: cond (with its truth) says x < BitsByteCount(count); returns x
+			lessThanCount := func(cond ssa.Value, truth bool) (ssa.Value, bool) {
+				bo, isBo := cond.(*ssa.BinOp)
+				if !isBo {
+					return nil, false
+				}
+				switch {
+				case bo.Op == token.LSS && truth && isCount(bo.Y), bo.Op == token.GEQ && !truth && isCount(bo.Y):
+					return bo.X, true
+				case bo.Op == token.GTR && truth && isCount(bo.X), bo.Op == token.LEQ && !truth && isCount(bo.X):
+					return bo.Y, true
+				}
+				return nil, false
+			}
 			fw.EachInstr(fn, func(ins ssa.Instruction) {
+				// clear(p[:BitsByteCount(count)])
+				if c, isCall := ins.(*ssa.Call); isCall && fw.IsBuiltinCall(c, "clear") {
+					if sl, isSl := c.Common().Args[0].(*ssa.Slice); isSl && sl.X == ssa.Value(fn.Params[1]) && (sl.Low == nil || constIs(sl.Low, 0)) && sl.High != nil && isCount(sl.High) {
+						okFill = true
+					}
+					return
+				}
 				st, ok := ins.(*ssa.Store)
 				if !ok {
 					return
 				}
 				ia, ok := st.Addr.(*ssa.IndexAddr)
-				if !ok {
+				if !ok || ia.X != ssa.Value(fn.Params[1]) {
 					return
 				}
-				if c, ok := st.Val.(*ssa.Const); !ok || c.Int64() != 0 {
+				if c, ok := st.Val.(*ssa.Const); !ok || c.Value == nil || c.Int64() != 0 {
 					return
 				}
-				for _, g := range fw.Guards(st.Block()) {
-					cmp, ok := env.CmpOf(g.Normalize().Cond)
-					if !ok {
+				// the index counts 0,1,2,...
+				iph, isPhi := fw.StripConv(ia.Index).(*ssa.Phi)
+				if !isPhi {
+					return
+				}
+				for _, ed := range iph.Edges {
+					if constIs(ed, 0) {
 						continue
 					}
-					if !g.Normalize().True {
-						cmp.Rel = cmp.Rel.Negate()
+					if bo, isBo := ed.(*ssa.BinOp); isBo && bo.Op == token.ADD && (bo.X == ssa.Value(iph) && constIs(bo.Y, 1) || bo.Y == ssa.Value(iph) && constIs(bo.X, 1)) {
+						continue
 					}
-					// i - BitsByteCount(rBits) < 0
-					idx := env.Of(ia.Index)
-					bound := cmp.P.Sub(idx).Neg()
-					if cmp.Rel == fw.LT && strings.HasPrefix(bound.String(), "bitio.BitsByteCount(") || cmp.Rel == fw.LT && strings.HasPrefix(bound.String(), "BitsByteCount(") {
-						if strings.Contains(bound.String(), got.String()) {
-							okFill = true
+					return
+				}
+				// bound: a dominating guard i < BitsByteCount(count) ...
+				for _, g := range fw.Guards(st.Block()) {
+					g = g.Normalize()
+					if x, ok := lessThanCount(g.Cond, g.True); ok && fw.StripConv(x) == ssa.Value(iph) {
+						okFill = true
+					}
+				}
+				// ... or (rotated loop) the test on every edge into the body
+				if !okFill && iph.Block() == st.Block() {
+					all := len(iph.Edges) > 0
+					for j, ed := range iph.Edges {
+						pred := iph.Block().Preds[j]
+						ifi, isIf := pred.Instrs[len(pred.Instrs)-1].(*ssa.If)
+						if !isIf || pred.Succs[0] == pred.Succs[1] {
+							all = false
+							continue
 						}
+						g := fw.Guard{Cond: ifi.Cond, True: pred.Succs[0] == iph.Block()}.Normalize()
+						x, ok := lessThanCount(g.Cond, g.True)
+						all = all && ok && (fw.StripConv(x) == fw.StripConv(ed) || constIs(x, 0) && constIs(ed, 0))
 					}
+					okFill = all
 				}
 			})
 			ru.Check(okFill, "ZeroReadAtSeeker.ReadBitsAt:fill", p.Rel(fn.Pos()), "zero fill covers BitsByteCount(count) bytes", "the zero fill loop does not cover BitsByteCount(returned count) bytes (a trailing partial byte keeps stale caller data)")
@@ -592,7 +724,9 @@ func c01EOF(r *fw.Run, p *fw.Program) {
 	okW := false
 	if ok && sl.High != nil {
 		h := env.Of(sl.High).String()
-		okW = strings.Contains(h, "BitsByteCount((bitOffset % 8) + nBits)")
+		if bc, isCall := fw.StripConv(sl.High).(*ssa.Call); isCall && bc.Common().StaticCallee() != nil && fw.ShortName(bc.Common().StaticCallee().String()) == "pkg/bitio.BitsByteCount" {
+			okW = env.Of(bc.Common().Args[0]).Equal(fw.PAtom("(bitOffset % 8)").Add(fw.PAtom("nBits")))
+		}
 		ru.Check(okW, "want-bytes", p.Rel(rf.Pos()), "reads BitsByteCount(bitOffset%8 + nBits) bytes", "number of bytes fetched is "+h+", expected BitsByteCount(bitOffset%8 + nBits)")
 	} else {
 		ru.Undecided("want-bytes", p.Rel(rf.Pos()), "ReadFull buffer is not a slice with an upper bound")
@@ -622,7 +756,11 @@ func c01EOF(r *fw.Run, p *fw.Program) {
 			}
 			found = true
 			s := pe.String()
-			ru.Check(s == want1, "short-read", p.Rel(phi.Pos()), "nBits = max(0, 8*bytesRead - bitOffset%8)", "after a short read nBits becomes "+s+", expected max(0, 8*bytesRead - bitOffset%8): bits past the logical end would be reported")
+			okTrunc := s == want1
+			if x, isClamp := c01NonNegClamp(env, e); isClamp && x.Equal(readBytes.MulC(8).Sub(fw.PAtom("(bitOffset % 8)"))) {
+				okTrunc = true
+			}
+			ru.Check(okTrunc, "short-read", p.Rel(phi.Pos()), "nBits = max(0, 8*bytesRead - bitOffset%8)", "after a short read nBits becomes "+s+", expected max(0, 8*bytesRead - bitOffset%8): bits past the logical end would be reported")
 		}
 	})
 	if !found {
@@ -684,8 +822,8 @@ func c01Ahead(r *fw.Run, p *fw.Program) {
 			if len(prior) == 0 {
 				// cache hit path: must be inside the cached window and set offset
 				okHit := false
-				for _, st := range storesTo(fn, "r.offset") {
-					if precedesOnAllPaths(st, ret) && env.Of(st.Val).Equal(env.Of(ret.Results[0])) {
+				for _, st := range c01EffStores(fn, "offset") {
+					if st.val != nil && precedesOnAllPaths(st.at, ret) && env.Of(st.val).Equal(env.Of(ret.Results[0])) {
 						okHit = true
 					}
 				}
@@ -698,13 +836,13 @@ func c01Ahead(r *fw.Run, p *fw.Program) {
 			}
 			// after an underlying seek: cacheUsed = 0 and offset = returned position on every path
 			okInv, okOff := false, false
-			for _, st := range storesTo(fn, "r.cacheUsed") {
-				if c, ok := st.Val.(*ssa.Const); ok && c.Int64() == 0 && precedesOnAllPaths(st, ret) && afterAll(st, prior) {
+			for _, st := range c01EffStores(fn, "cacheUsed") {
+				if c, ok := st.val.(*ssa.Const); ok && c.Value != nil && c.Int64() == 0 && precedesOnAllPaths(st.at, ret) && afterAll(st.at, prior) {
 					okInv = true
 				}
 			}
-			for _, st := range storesTo(fn, "r.offset") {
-				if precedesOnAllPaths(st, ret) && afterAll(st, prior) && env.Of(st.Val).Equal(env.Of(ret.Results[0])) {
+			for _, st := range c01EffStores(fn, "offset") {
+				if st.val != nil && precedesOnAllPaths(st.at, ret) && afterAll(st.at, prior) && env.Of(st.val).Equal(env.Of(ret.Results[0])) {
 					okOff = true
 				}
 			}
@@ -767,13 +905,122 @@ func c01Ahead(r *fw.Run, p *fw.Program) {
 				low := fw.StripVersions(env.Of(src.Low))
 				ru.Check(low.Equal(fw.ParsePoly("r.offset - r.cacheOffset")), "Read:hit-start", p.Rel(cp.Pos()), "copy starts at offset - cacheOffset", "copy from the cache starts at "+low.String()+", expected r.offset - r.cacheOffset")
 				n := fw.StripVersions(env.Of(src.High)).Sub(low).String()
-				okLen := n == "aheadreadseeker.min64(r.cacheOffset + r.cacheUsed + -1*r.offset, len(p))" || n == "aheadreadseeker.min64(len(p), r.cacheOffset + r.cacheUsed + -1*r.offset)"
+				okLen := n == "aheadreadseeker.min64(r.cacheOffset + r.cacheUsed + -1*r.offset, len(p))" || n == "aheadreadseeker.min64(len(p), r.cacheOffset + r.cacheUsed + -1*r.offset)" ||
+					n == "min(len(p), r.cacheOffset + r.cacheUsed + -1*r.offset)" || n == "min(r.cacheOffset + r.cacheUsed + -1*r.offset, len(p))"
 				ru.Check(okLen, "Read:hit-len", p.Rel(cp.Pos()), "copy length = min(cacheUsed - d, len(p))", "copy length "+n+" is not min(cacheUsed - (offset-cacheOffset), len(p))")
+				// the logical offset advances by, and Read reports, exactly the bytes copied
+				nP := fw.StripVersions(env.Of(src.High)).Sub(low)
+				adv := false
+				for _, st := range storesTo(fn, "r.offset") {
+					if st.Block() == cp.Block() && fw.StripVersions(env.Of(st.Val)).Equal(fw.PAtom("r.offset").Add(nP)) {
+						adv = true
+					}
+				}
+				ru.Check(adv, "Read:hit-advance", p.Rel(cp.Pos()), "offset += bytes copied", "after serving from the cache r.offset must advance by exactly the bytes copied (the same bytes would be served again)")
+				okRet := false
+				for _, ret := range returnsOf(fn) {
+					if ret.Block() == cp.Block() || cp.Block().Dominates(ret.Block()) {
+						okRet = fw.StripVersions(env.Of(ret.Results[0])).Equal(nP) && isNilErr(ret.Results[1])
+					}
+				}
+				ru.Check(okRet, "Read:hit-return", p.Rel(cp.Pos()), "returns the bytes copied", "a cache hit must report exactly the number of bytes copied into p")
+				if dst, ok := cp.Common().Args[0].(*ssa.Slice); ok {
+					okDst := dst.X == ssa.Value(fn.Params[1]) && (dst.Low == nil || constIs(dst.Low, 0))
+					ru.Check(okDst, "Read:hit-dst", p.Rel(cp.Pos()), "copies to the start of p", "a cache hit must copy to the start of p")
+				}
 			} else {
 				ru.Undecided("Read:hit-start", p.Rel(cp.Pos()), "copy source is not a bounded slice of the cache")
 			}
 		}
 	}
+}
+
+// c01Eff is a store to a field of the receiver, performed directly or by a one-block helper method
+// called on the receiver (extracting "invalidate the cache" into a method keeps the rule satisfied).
+type c01Eff struct {
+	at  ssa.Instruction // the store, or the call of the helper
+	val ssa.Value       // stored value in the caller's terms (nil: not expressible)
+}
+
+func c01EffStores(fn *ssa.Function, field string) []c01Eff {
+	var out []c01Eff
+	if len(fn.Params) == 0 {
+		return nil
+	}
+	recv := fn.Params[0]
+	fw.EachInstr(fn, func(ins ssa.Instruction) {
+		switch x := ins.(type) {
+		case *ssa.Store:
+			if fa, ok := x.Addr.(*ssa.FieldAddr); ok && fa.X == ssa.Value(recv) && fieldNameOf(fa.X.Type(), fa.Field) == field {
+				out = append(out, c01Eff{x, x.Val})
+			}
+		case *ssa.Call:
+			g := x.Common().StaticCallee()
+			if g == nil || g.Pkg != fn.Pkg || len(g.Blocks) != 1 || len(g.Params) == 0 || len(x.Common().Args) == 0 || x.Common().Args[0] != ssa.Value(recv) {
+				return
+			}
+			for _, gi := range g.Blocks[0].Instrs {
+				st, ok := gi.(*ssa.Store)
+				if !ok {
+					continue
+				}
+				fa, ok := st.Addr.(*ssa.FieldAddr)
+				if !ok || fa.X != ssa.Value(g.Params[0]) || fieldNameOf(fa.X.Type(), fa.Field) != field {
+					continue
+				}
+				var v ssa.Value
+				switch sv := st.Val.(type) {
+				case *ssa.Const:
+					v = sv
+				case *ssa.Parameter:
+					for k, gp := range g.Params {
+						if gp == sv && k < len(x.Common().Args) {
+							v = x.Common().Args[k]
+						}
+					}
+				}
+				out = append(out, c01Eff{x, v})
+			}
+		}
+	})
+	return out
+}
+
+// c01NonNegClamp: v is max(0, X), written with the builtin or as "x := X; if x < 0 { x = 0 }"; returns X.
+func c01NonNegClamp(env *fw.PolyEnv, v ssa.Value) (*fw.Poly, bool) {
+	switch x := v.(type) {
+	case *ssa.Call:
+		if fw.IsBuiltinCall(x, "max") && len(x.Common().Args) == 2 {
+			a := x.Common().Args
+			if constIs(a[0], 0) {
+				return env.Of(a[1]), true
+			}
+			if constIs(a[1], 0) {
+				return env.Of(a[0]), true
+			}
+		}
+	case *ssa.Phi:
+		if len(x.Edges) != 2 {
+			return nil, false
+		}
+		zi := -1
+		for i, ed := range x.Edges {
+			if constIs(ed, 0) {
+				zi = i
+			}
+		}
+		if zi < 0 || constIs(x.Edges[1-zi], 0) {
+			return nil, false
+		}
+		xp := env.Of(x.Edges[1-zi])
+		zf := env.EdgeFacts(x.Block().Preds[zi], x.Block())
+		xf := env.EdgeFacts(x.Block().Preds[1-zi], x.Block())
+		if (fw.ProvesFrom(zf, fw.Cmp{P: xp, Rel: fw.LE}) || fw.ProvesFrom(zf, fw.Cmp{P: xp, Rel: fw.LT})) &&
+			(fw.ProvesFrom(xf, fw.Cmp{P: xp, Rel: fw.GE}) || fw.ProvesFrom(xf, fw.Cmp{P: xp, Rel: fw.GT})) {
+			return xp, true
+		}
+	}
+	return nil, false
 }
 
 func constIs(v ssa.Value, k int64) bool {
